@@ -178,7 +178,9 @@ TRUSTED = [
 ]
 
 # representation invariant of HedTag text layout used by the sub-tag span preconditions (C12): the extension follows the
-# base tag after one slash.  Assumed of every HedTag (established by _calculate_to_canonical_forms, checked at run time by T3).
+# base tag after one slash.  It is a PRECONDITION (requires) of the contracts that use it, established by _calculate_to_canonical_forms for
+# parsed tags; the concrete cross-check (rt/xgens_tags.py) found real tags outside it - a trailing slash ('Red/'), a tag after
+# replace_placeholder, a tag rewritten through the .tag / .short_base_tag setters - which those contracts therefore do not cover.
 HEDTAG_LAYOUT = ("len(original_tag.tag) == len(original_tag.org_base_tag) + (1 + len(original_tag.extension) "
                  "if len(original_tag.extension) > 0 else 0)")
 
